@@ -13,7 +13,7 @@
      on all parameters (err_str_params = -1 is the decorator's default).
      cse_array_wrapper/refs_wrapper are the identity on scalars; tuple/list
      arguments are outside the model (Unmodelled).
-   * substitute (a while loop), trim (a regular expression), concat.
+   * substitute (a while loop), trim (a regular expression + strip), concat.
    * TEXT(x, f) for formats over the characters 0 # , . % (see [text_fmt]). *)
 From Coq Require Import ZArith QArith Qround List Bool Lia.
 From PV Require Import Lib.Py.
@@ -139,10 +139,22 @@ Definition X_upper : list pyval -> res pyval :=
     | [x] => text.f_upper x
     | _ => Raise TypeError end).
 
-(* trim: RE_MULTI_SPACE.sub(' ', text) *)
+(* trim: RE_MULTI_SPACE.sub(' ', text).strip(' ') — runs of U+0020 become one
+   space, then the spaces (U+0020 only) at both ends are removed *)
+Fixpoint lstrip32 (s : str) : str :=
+  match s with c :: s' => if c =? 32 then lstrip32 s' else s | [] => [] end.
+Fixpoint rstrip32 (s : str) : str :=
+  match s with
+  | [] => []
+  | c :: s' => match rstrip32 s' with
+               | [] => if c =? 32 then [] else [c]
+               | r => c :: r
+               end
+  end.
+Definition trim_chars (s : str) : str := rstrip32 (lstrip32 (squeeze_spaces s)).
 Definition X_trim : list pyval -> res pyval :=
   wrap [0%nat] [] (fun a => match a with
-    | [VStr t] => Ok (VStr (squeeze_spaces t))
+    | [VStr t] => Ok (VStr (trim_chars t))
     | [_] => Raise Unmodelled
     | _ => Raise TypeError end).
 
